@@ -14,6 +14,8 @@ use crate::symbol::with_symbol_table;
 use crate::{dprintln, features};
 
 pub use self::breakpoint::{Breakpoint, Breakpoints};
+#[cfg(feature = "verif")]
+pub(crate) use self::command::{verif_parse_command, VerifTerminal};
 
 /// Leave this as a struct, in case more options are added in the future. Plus it is more explicit.
 #[derive(Debug)]
@@ -299,6 +301,8 @@ impl Debugger {
             matches!(self.status, Status::WaitForAction),
             "`run_command` must only be called if `status == WaitForAction`",
         );
+        #[cfg(feature = "verif")]
+        crate::verif::prompt(state.verif_view(), &self.breakpoints);
 
         Output::Debugger(Condition::Always, Default::default()).start_new_line();
 
